@@ -5,6 +5,7 @@ import re
 from nvlib import engine as E
 from nvlib import extract as X
 from nvlib.check import Prop
+from props import c12_extract as AX
 
 WORDS = ["a", "b", "c", "d", "e", "f", "g", "h", "ab", "cd", "x1", "y2", "k", "q", "zz9"]
 SUBWORDS2 = ["m1", "m2", "m3"]      # command() texts, level 2 (their scripts may call level 1)
@@ -15,7 +16,8 @@ MAX_BYTES_PER_USER = 300            # keeps every interactive_t.text far away fr
 class C12(Prop):
     id = "C12"
     title = "Buffered commands are served fairly: one per user per cycle, nobody starves"
-    lean_modules = ["NV.C12.Props", "NV.C12.Witness", "NV.C12.Trace", "NV.C12.Fifo3", "NV.C12.Fifo5", "NV.C12.Neg", "NV.C12.Flag"]
+    lean_modules = ["NV.C12.Props", "NV.C12.Witness", "NV.C12.Trace", "NV.C12.Fifo3", "NV.C12.Fifo5", "NV.C12.Neg", "NV.C12.Flag",
+                    "NV.C12.Lemmas4", "NV.C12.Live4", "NV.C12.Order1", "NV.C12.Order6"]
     lean_modules_ = None
     theorems = [
         "NV.C12.flag_bits",
@@ -24,6 +26,14 @@ class C12(Prop):
         "NV.C12.loopCalls_spec",
         "NV.C12.grantCond_spec",
         "NV.C12.countCond_spec",
+        "NV.C12.pollBlocks_spec",
+        "NV.C12.growBy_pos",
+        "NV.C12.firstUserSlot_spec",
+        "NV.C12.backendOrder_spec",
+        "NV.C12.errorReentry_spec",
+        "NV.C12.gucOrder_spec",
+        "NV.C12.gucScanOrder_spec",
+        "NV.C12.pucOrder_spec",
         "NV.C12.cursor_in_bounds",
         "NV.C12.run_never_crashes",
         "NV.C12.processIO_safe",
@@ -60,6 +70,48 @@ class C12(Prop):
         "NV.C12.reframe_enc",
         "NV.C12.consume_line",
         "NV.C12.consume_char",
+        "NV.C12.cycleStep_weight",
+        "NV.C12.cycleStep_weight_le",
+        "NV.C12.cycleRun_fold",
+        "NV.C12.cycleRun_quiet",
+        "NV.C12.cycleRun_last",
+        "NV.C12.loop_bound_sufficient_run",
+        "NV.C12.struct_run",
+        "NV.C12.efun_run",
+        "NV.C12.G_cycleRun",
+        "NV.C12.cmdLoop_thrown_false",
+        "NV.C12.judgeLive_events",
+        "NV.C12.judgeEv_events_eq_order",
+        "NV.C12.model_satisfies_spec",
+        "NV.C12.judgeOrder_events",
+        "NV.C12.OB_cycle",
+        "NV.C12.OB_step",
+        "NV.C12.OB_run",
+        "NV.C12.puc_OL",
+        "NV.C12.cmdLoop_OL",
+        "NV.C12.processIO_OB",
+        "NV.C12.guc_ord",
+        "NV.C12.scan_ord",
+        "NV.C12.rank_dec",
+        "NV.C12.rank_grow",
+        "NV.C12.cplO_step",
+        "NV.C12.model_satisfies_spec_noerr",
+        "NV.C12.order_of_struct",
+        "NV.C12.run_noerr",
+        "NV.C12.B_cycle",
+        "NV.C12.B_step",
+        "NV.C12.B_run",
+        "NV.C12.blocker_pending",
+        "NV.C12.eligible_start",
+        "NV.C12.complete_hasCmd",
+        "NV.C12.LiveOK_runOps",
+        "NV.C12.LiveOK_cmdLoop",
+        "NV.C12.LiveOK_processIO",
+        "NV.C12.accept_interactive",
+        "NV.C12.newSlot_free",
+        "NV.C12.cpl_fold",
+        "NV.C12.inLoop_fold",
+        "NV.C12.cmdLoop_inLoop",
     ]
     witness_theorems = []
     consts = [("hasCmdTurn", "HAS_CMD_TURN"), ("cmdInBuf", "CMD_IN_BUF"), ("singleChar", "SINGLE_CHAR"),
@@ -69,26 +121,39 @@ class C12(Prop):
     thorough_n = 2500
     search_n = 600
     design_ref = "5/C12"
-    technique = ("Lean 4 proof (invariants of the rotating cursor, turn counting, induction over the command loop and over "
-                 "histories) + translator-generated flag bits + model/implementation correspondence on the real backend() loop")
+    technique = ("Lean 4 proof (invariants of the rotating cursor, turn counting, induction over the command loop, over the "
+                 "restarts after uncaught errors with a weight measure, and over histories; simulation between the "
+                 "specification oracle and the model) + translator (flag bits, cursor / bound / grant / timeout / growth "
+                 "expressions from the source text, statement order of backend(), get_user_command(), process_user_command() "
+                 "from the clang AST) + model/implementation correspondence on the real backend() loop")
     level_text = ("Lean 4 theorems about an executable model of the turn-grant loop and bounded command loop of backend() and of "
                   "get_user_command/process_user_command (rotating cursor, HAS_CMD_TURN/CMD_IN_BUF/SINGLE_CHAR, sparse connection "
-                  "table, (dis)connects between and inside cycles, command() efun) for all tables, cursors, queue depths and "
-                  "scripts; the model is tied to the source by the regenerated flag bits and by stepping the REAL backend() loop "
-                  "(guarded cycle hook) with loopback TCP clients on the same histories; the Lean specification oracle judges "
-                  "every implementation trace")
-    level_note = ("trusted: Lean kernel; extract.py; the correspondence harness (differential, only the generated histories); LPC "
-                  "code run by commands is an oracle script with fuel; input buffer size rules (C13), `!` escapes, ed and errors "
-                  "thrown by commands are outside the model")
-    rule = ("cases = corpus + boundary list + seeded random histories: 1..12 users connecting (accept queue), closing, being "
-            "kicked/dropped from inside commands, sparse slot layouts, bursts of 0..12 lines per user incl. partial lines and "
-            "empty lines, get_char/input_to mode switches, nested command() calls; every cycle of the real backend() is "
-            "compared line by line with the model (commands served, iflags and slot of every user after each cycle); a case is "
-            "non-trivial when at least one buffered command was executed; distinct = distinct canonical implementation trace")
-    not_covered = ["commands that throw an LPC error (longjmp to the top of backend(): the aborted cycle never reaches the hook)",
-                   "interactive_t.text compaction / overflow rules (more than ~300 bytes per user per case) - property C13",
+                  "table, (dis)connects between and inside cycles incl. a connect and disconnects in one process_io, command() "
+                  "efun, exec() moving a connection to another object, uncaught LPC errors that abort an iteration and restart the loop) for all tables, cursors, queue depths "
+                  "and scripts; TOP THEOREM model_satisfies_spec: judgeEv (events sc cs) = [] - the specification oracle (all five "
+                  "clause oracles: twice / outside / crash / malformed, efun, fifo, starved / idleWait, overtaken) accepts the "
+                  "trace of the model for every history with plain bytes and every script oracle; the model is tied to the source by regenerated "
+                  "expressions, flag bits and AST statement orders (bridging lemmas are obligations) and by stepping the REAL "
+                  "backend() loop (guarded cycle hook; aborted iterations seen through the second poll) with loopback TCP clients "
+                  "on the same histories; the Lean oracle judges every implementation trace")
+    level_note = ("trusted: Lean kernel; extract.py / c12_extract.py; the correspondence harness (differential, only the generated "
+                  "histories; poll events are reported to the driver in a fixed order: listening port, then users by slot); LPC "
+                  "code run by commands is an oracle script with fuel; sent bytes in the trace theorems are plain (no "
+                  "NUL/BS/DEL/CR/LF: such bytes edit or split lines); input buffer size rules (C13), `!` "
+                  "escapes, ed, console user are outside the model")
+    rule = ("cases = corpus + boundary list + seeded random histories: 1..12 users (sometimes 50..112) connecting (accept queue), "
+            "closing, being kicked/dropped from inside commands, sparse slot layouts, several users quitting inside one command "
+            "loop with nobody idle, bursts of 0..12 lines per user incl. partial lines and empty lines, get_char/input_to mode "
+            "switches, nested command() calls, exec() of the connection to a fresh object, commands that raise uncaught errors (aborted iterations); every cycle of the real "
+            "backend() is compared line by line with the model (commands served, iflags and slot of every user after each "
+            "cycle); a case is non-trivial when at least one buffered command was executed; distinct = distinct canonical "
+            "implementation trace")
+    not_covered = ["interactive_t.text compaction / overflow rules (more than ~300 bytes per user per case) - property C13; note: "
+                   "C13's open finding C13-typeahead-discard (complete type-ahead commands discarded when > 1663 bytes are "
+                   "pending) is a loss of commands that wait for their turns, i.e. it also breaks the FIFO clause of this "
+                   "property for such bursts",
                    "`!` shell escapes with a pending input_to, ed, snooping, console user (slot 0), telnet negotiation bytes",
-                   "a connect and a disconnect of different users inside one process_io (event order of the poller is not modelled)"]
+                   "heart beats: an iteration aborted by an error skips call_heart_beat() (property C11)"]
 
     # ---- tie: scheduling expressions regenerated from the source text ------------------------------------
     @staticmethod
@@ -167,6 +232,52 @@ class C12(Prop):
                    "def grantCond (occupied : Bool) : Bool := %s(%soccupied)" % (neg, "" if grants else "false && ", neg))
         out.append("/-- C (backend, grant loop): `connected_users++` under the same condition -/\n"
                    "def countCond (occupied : Bool) : Bool := %s(%soccupied)" % ("" if counts else "false && ", neg))
+        # (d) the poll timeout: zero when a heart beat is due or a command is pending
+        m5 = re.findall(r"if \(HEART_BEAT_FLAG\s*\(\) \|\| has_pending_commands\)\s*\{[^{}]*?timeout\.tv_sec = (\d+);[^{}]*\}\s*"
+                        r"else\s*\{[^{}]*?timeout\.tv_sec = (\d+);[^{}]*\}\s*nb = do_comm_polling \(&timeout\);", back, re.S)
+        if len(m5) != 1:
+            raise X.TieBroken("guard:poll timeout", "cannot locate `if (HEART_BEAT_FLAG() || has_pending_commands) {tv_sec = A} else "
+                              "{tv_sec = B}` directly in front of do_comm_polling() in backend()")
+        out.append("/-- C (backend): `timeout.tv_sec` handed to do_comm_polling -/\n"
+                   "def pollTimeout (heartBeat pending : Bool) : Nat := if heartBeat || pending then %s else %s" % m5[0])
+        # has_pending_commands is set from CMD_IN_BUF of occupied slots, inside the grant loop
+        if not re.search(r"if \(!has_pending_commands && \(all_users\[i\]->iflags & CMD_IN_BUF\)\)\s*\{\s*has_pending_commands = 1;\s*\}",
+                         gbody) or len(re.findall(r"has_pending_commands\s*=[^=]", back)) != 2:
+            raise X.TieBroken("guard:has_pending_commands", "has_pending_commands is no longer `some occupied slot has CMD_IN_BUF`")
+        # (e) the connection table grows by a constant number of slots
+        m6 = re.findall(r"int new_max_users = max_users \+ (\d+);", comm)
+        if len(m6) != 1 or not re.search(r"while \(max_users < new_max_users\)\s*all_users\[max_users\+\+\] = 0;", comm):
+            raise X.TieBroken("guard:table growth", "cannot locate `new_max_users = max_users + N` / the fill loop in new_interactive()")
+        out.append("/-- C (new_interactive): `int new_max_users = max_users + %s;` -/\ndef growBy : Nat := %s" % (m6[0], m6[0]))
+        # (g) the slot search of new_interactive starts behind the console slot; a new interactive holds no flag
+        m7 = re.findall(r"for \(i = (\d+); i < max_users; i\+\+\)\s*if \(!all_users\[i\]\)\s*break;", comm)
+        if len(m7) != 1 or not re.search(r"master_ob->interactive->iflags = 0;", comm):
+            raise X.TieBroken("guard:slot search", "cannot locate `for (i = N; i < max_users; i++) if (!all_users[i]) break;` / "
+                              "`iflags = 0` in new_interactive()")
+        out.append("/-- C (new_interactive): first slot tried for a network user: `for (i = %s; i < max_users; i++)` -/\n"
+                   "def firstUserSlot : Nat := %s" % (m7[0], m7[0]))
+        # (h) structural guards (no generated definition): where CMD_IN_BUF is set and cleared, what ends single-char mode
+        if len(re.findall(r"~CMD_IN_BUF", body)) != 2 \
+                or len(re.findall(r"\}\s*else\s*ip->iflags &= ~CMD_IN_BUF;", body)) != 1 \
+                or len(re.findall(r"next_cmd_in_buf \(ip\);\s*if \(!cmd_in_buf \(ip\)\)\s*ip->iflags &= ~CMD_IN_BUF;", body)) != 1:
+            raise X.TieBroken("guard:CMD_IN_BUF cleared", "get_user_command no longer clears CMD_IN_BUF exactly (a) when "
+                              "first_cmd_in_buf finds nothing and (b) when nothing complete is left after next_cmd_in_buf")
+        nset = len(re.findall(r"iflags \|= CMD_IN_BUF;", comm))
+        nguard = len(re.findall(r"if \([^;{}]*cmd_in_buf\s*\([^()]*\)\)\s*\{?[^{};]*(?:;[^{};]*)?iflags \|= CMD_IN_BUF;", comm))
+        if nset != nguard or nset < 3:
+            raise X.TieBroken("guard:CMD_IN_BUF set", "CMD_IN_BUF is set somewhere without the cmd_in_buf() test (%d sets, %d guarded)"
+                              % (nset, nguard))
+        if not re.search(r"free_sentence \(sent\);\s*i->input_to = 0;.*?if \(i->iflags & SINGLE_CHAR\)\s*\{\s*i->iflags &= ~SINGLE_CHAR;\s*"
+                         r"set_telnet_single_char \(i, 0\);\s*reframe_single_char_input \(i\);\s*\}.*?call_function_pointer \(funp",
+                         comm, re.S):
+            raise X.TieBroken("guard:call_function_interactive", "call_function_interactive no longer clears input_to, ends "
+                              "single-char mode and reframes the buffer BEFORE it calls the callback")
+        if not re.search(r"if \(flags & I_SINGLE_CHAR\)\s*\{\s*set_telnet_single_char \(ob->interactive, 1\);[^{}]*?"
+                         r"if \(ob->interactive && cmd_in_buf \(ob->interactive\)\)\s*ob->interactive->iflags \|= CMD_IN_BUF;\s*\}",
+                         comm, re.S):
+            raise X.TieBroken("guard:set_call", "set_call no longer flags typed-ahead text when it enters single-char mode")
+        # (f) statement order of backend()'s loop, get_user_command() and process_user_command() from the clang AST
+        out.append(AX.generate(bdir))
         return "\n".join(out)
 
     def prepare(self, ctx):
@@ -234,6 +345,44 @@ class C12(Prop):
         mk("sparse-two-high-slots", ["script u20 =k kick,u20;kick,u19"] + conns(20) +
            ["close u%d" % i for i in range(3, 19)] + ["cycle", "cycle", "send u20 t~", "cycle",
             "send u1 a~b~c~d~e~f~", "send u2 a~b~c~d~e~f~", "send u19 x~", "send u20 k~", "cycle"] + ["cycle"] * 8)
+        # uncaught LPC errors: the iteration is aborted (longjmp to the top of backend()), the loop restarts at once
+        mk("error-aborts-cycle", ["script u1 =x err", "script u2 =y ecmd,u1,m1", "script u1 =m1 err"] + conns(3) +
+           ["send u1 a~x~b~", "send u2 p~y~q~", "send u3 r~s~t~"] + ["cycle"] * 4)
+        mk("error-every-command", ["script u1 =%s err" % w for w in "abcde"] + conns(2) +
+           ["send u1 a~b~c~d~e~f~", "send u2 p~q~r~", "cycle", "cycle", "cycle"])
+        mk("error-in-callbacks", ["script u1 =g gc", "script u1 =z err;gc", "script u2 =h it", "script u2 =w gc;err",
+                                  "script u2 =k err"] + conns(2) +
+           ["send u1 g~zab~", "send u2 h~w~k", "cycle", "cycle", "send u2 ~x~", "cycle", "cycle", "cycle", "cycle"])
+        mk("error-and-accept", ["script u1 =x err", "script u1 =y err"] + conns(1) +
+           ["conn", "conn", "conn", "send u1 x~y~a~", "cycle", "send u2 p~", "send u3 q~", "cycle", "cycle", "cycle"])
+        mk("error-after-leaving", ["script u1 =d drop,u1;err", "script u2 =k kick,u3;err", "script u3 =s kick,u3;err"] +
+           conns(4) + ["send u%d a~b~" % i for i in (1, 2, 3, 4)] + ["send u1 d~", "send u2 k~", "send u3 s~"] +
+           ["cycle"] * 5)
+        mk("error-sparse-last-slot", ["script u49 =x err", "script u1 =x err"] + ["conn"] * 49 + ["cycle"] * 50 +
+           ["close u%d" % i for i in range(2, 49)] + ["cycle", "send u49 x~a~x~b~", "send u1 a~x~b~"] + ["cycle"] * 4)
+        # several users leave by their own command inside ONE command loop while the users served after them hold
+        # commands and nobody is idle (the loop bound must not shrink with the table): quit = destruct, drop = remove_interactive
+        def quitters(n, quit, how="kick", park=None, idle=0):
+            sc = ["script u%d =q %s,u%d" % (q, how, q) for q in quit]
+            pre = conns(n + idle)
+            if park:
+                pre += ["send u%d t~" % park, "cycle"]
+            return sc + pre + ["send u%d %s" % (i, "q~z~" if i in quit else "a~b~") for i in range(1, n + 1)] + ["cycle"] * 4
+        mk("two-quit-one-waits", quitters(3, (3, 2)))
+        mk("two-drop-one-waits", quitters(3, (3, 2), "drop"))
+        mk("two-quit-two-wait", quitters(4, (4, 3)))
+        mk("three-quit-two-wait-parked", quitters(5, (2, 1, 5), park=3))
+        mk("quit-mid-table-parked", quitters(6, (4, 3, 2), park=5))
+        mk("two-quit-one-waits-one-idle", quitters(3, (3, 2), idle=1))
+        mk("killer-and-quitters", ["script u5 =q kick,u4;kick,u5", "script u3 =q drop,u3"] + conns(5) +
+           ["send u5 q~", "send u4 a~", "send u3 q~", "send u2 a~b~", "send u1 a~b~"] + ["cycle"] * 4)
+        mk("quit-at-table-edge", ["script u50 =q kick,u50", "script u49 =q kick,u49"] + ["conn"] * 51 + ["cycle"] * 52 +
+           ["close u%d" % i for i in range(2, 49)] + ["cycle", "send u51 q~", "send u50 q~", "send u49 q~", "send u1 a~b~"] +
+           ["cycle"] * 4)
+        # exec(): the connection (slot, iflags, text buffer, pending input_to) moves to a fresh object
+        mk("exec-moves-connection", ["script u1 =x exec;gc", "script u2 =y exec;exec;ecmd,u1,m1", "script u1 =m1 exec;it",
+                                     "script u3 =k exec;kick,u3"] + conns(3) +
+           ["send u1 x~ab~c~", "send u2 y~p~q~", "send u3 r~k~s~"] + ["cycle"] * 5 + ["send u1 z~", "cycle", "cycle"])
         mk("kick-waiting-user", ["script u3 =k kick,u1;kick,u2", "script u2 =s kick,u2;gc"] + conns(3) +
            ["send u1 a~b~", "send u2 a~b~", "send u3 k~c~", "cycle", "cycle", "conn", "cycle", "send u4 s~", "cycle", "cycle"])
         mk("self-kick-and-drop", ["script u2 =s kick,u2;ecmd,u1,m1", "script u1 =d drop,u1;ecmd,u1,m1;gc", "script u1 =m1 it"] +
@@ -251,6 +400,14 @@ class C12(Prop):
                                           "send u3 q~", "cycle"])
         mk("empty-and-partial", conns(2) + ["send u1 ~~a~", "send u2 ab", "cycle", "cycle", "send u2 c~~", "cycle", "cycle",
                                             "cycle", "cycle"])
+        # a connect and disconnects of other users inside one process_io (the harness reports ready descriptors in a
+        # fixed order: listening port, then users in slot order): the new user takes the first free slot BEFORE the
+        # slots of the leaving users are freed
+        mk("connect-and-disconnect-one-io", conns(4) + ["close u2", "conn", "send u3 a~", "cycle", "send u5 x~", "cycle",
+                                                        "close u1", "close u4", "conn", "conn", "cycle", "cycle", "cycle",
+                                                        "send u6 y~", "send u7 z~", "send u5 w~", "cycle", "cycle"])
+        mk("disconnect-with-data-and-connect", conns(3) + ["send u1 a~b~", "close u1", "conn", "send u2 x~", "cycle", "cycle",
+                                                           "conn", "close u2", "cycle", "send u4 q~", "send u5 r~", "cycle", "cycle"])
         mk("no-cycle", ["conn", "send u1 a~"])
         mk("idle-cycles", ["cycle", "cycle", "conn", "cycle", "cycle", "send u1 a~", "cycle"])
         mk("everybody-kicked", ["script u1 =k kick,u2;kick,u3;kick,u1"] + conns(3) +
@@ -261,7 +418,8 @@ class C12(Prop):
     def gen_script(self, rng, nusers, level):
         ops = []
         for _ in range(rng.range(1, 3)):
-            k = rng.weighted([("kick", 2), ("drop", 2), ("ecmd", 5 if level > 1 else 0), ("gc", 3), ("it", 2), ("itn", 1)])
+            k = rng.weighted([("kick", 2), ("drop", 2), ("ecmd", 5 if level > 1 else 0), ("gc", 3), ("it", 2), ("itn", 1),
+                              ("err", 2), ("exec", 2)])
             if k in ("kick", "drop"):
                 ops.append("%s,u%d" % (k, rng.range(1, nusers + 1)))
             elif k == "ecmd":
@@ -304,7 +462,8 @@ class C12(Prop):
             # get_char heavy: lines typed while a get_char() is pending, partial lines typed ahead of it
             for u in range(1, min(nmax, 4) + 1):
                 for wd in (rng.choice(WORDS), rng.choice(WORDS)):
-                    lines.append("script u%d =%s %s" % (u, wd, rng.choice(["gc", "gc", "gc;it", "it", "itn", "gc;ecmd,u%d,n1" % u])))
+                    lines.append("script u%d =%s %s" % (u, wd, rng.choice(["gc", "gc", "gc;it", "it", "itn", "gc;ecmd,u%d,n1" % u,
+                                                                           "gc;err", "err"])))
         nconn = 0
         nacc = 0
         closed = set()
@@ -335,14 +494,14 @@ class C12(Prop):
                     sent[u] = sent.get(u, 0) + cost
                     rxp.add(u)
                     body.append("send u%d %s" % (u, d))
-                elif k == "close" and nacc > 0 and nconn == nacc:
+                elif k == "close" and nacc > 0:
                     u = rng.range(1, nacc)
                     if u in closed:
                         continue
                     closed.add(u)
                     eof[u] = True
                     body.append("close u%d" % u)
-                elif k == "conn" and not eof and nconn < nmax:
+                elif k == "conn" and nconn < nmax:
                     nconn += 1
                     body.append("conn")
             for _ in range(rng.weighted([(1, 8), (2, 4), (3, 2), (5, 1)])):
@@ -398,10 +557,42 @@ class C12(Prop):
             body += ["conn", "cycle", "send u%d q~" % (n + 1), "cycle", "cycle"]
         return E.Case(cid, lines + body + ["run"], {"origin": "generated-sparse"})
 
+    def gen_quitters(self, rng, cid):
+        """everybody holds a command in the same cycle; two or more users leave by their own command (destruct /
+        remove_interactive) or are removed by somebody else's; cursor parked at a random slot; few or no idle users"""
+        n = rng.range(3, 9) if not rng.chance(1, 8) else rng.range(48, 52)
+        users = list(range(1, n + 1))
+        active = users if n < 20 else rng.shuffle(users)[:rng.range(3, 8)]
+        nq = rng.range(2, max(2, len(active) - 1))
+        quit = rng.shuffle(list(active))[:nq]
+        lines = []
+        for q in quit:
+            k = rng.weighted([("kick", 5), ("drop", 3), ("other", 2)])
+            if k == "other":
+                lines.append("script u%d =q kick,u%d;kick,u%d" % (q, rng.choice(quit), q))
+            else:
+                lines.append("script u%d =q %s,u%d" % (q, k, q))
+        body = ["conn"] * n + ["cycle"] * (n + 1)
+        idle = rng.weighted([(0, 6), (1, 2), (2, 1)])
+        body += ["conn", "cycle"] * idle
+        if n >= 20:
+            body += ["close u%d" % i for i in users if i not in active and rng.chance(4, 5)] + ["cycle"]
+        for _ in range(rng.range(0, 2)):                       # park the cursor
+            body += ["send u%d t~" % rng.choice(active), "cycle"]
+        for u in active:
+            body.append("send u%d %s" % (u, ("q~" + "".join(rng.choice(WORDS[:6]) + "~" for _ in range(rng.range(0, 2)))) if u in quit
+                                         else "".join(rng.choice(WORDS[:6]) + "~" for _ in range(rng.range(1, 3)))))
+        body += ["cycle"] * rng.range(2, 5)
+        if rng.chance(1, 3):
+            body += ["conn", "cycle", "send u%d a~" % (n + idle + 1), "cycle", "cycle"]
+        return E.Case(cid, lines + body + ["run"], {"origin": "generated-quitters"})
+
     def generate(self, rng, n, tier):
         out = []
         for i in range(n):
-            if i % 5 == 4:
+            if (tier == "search" and i < 150) or i % 7 == 6:
+                out.append(self.gen_quitters(rng, "g%d" % i))
+            elif i % 5 == 4:
                 out.append(self.gen_sparse(rng, "g%d" % i))
             else:
                 out.append(self.gen_case(rng, "g%d" % i, tier))
@@ -416,7 +607,7 @@ class C12(Prop):
         nconn = sum(1 for l in lines if l == "conn")
         for i in range(n):
             if i % 3 == 2 or nconn == 0:
-                out.append(self.gen_sparse(rng, "m%d" % i))
+                out.append(self.gen_sparse(rng, "m%d" % i) if i % 2 else self.gen_quitters(rng, "m%d" % i))
                 continue
             ls = list(lines)
             for _ in range(rng.range(1, 4)):
@@ -447,10 +638,12 @@ class C12(Prop):
         return out
 
     def histogram(self, cases, impl):
-        h = {"cycles": 0, "buffered_cmds": 0, "efun_cmds": 0, "kicks": 0, "drops": 0, "getchar": 0, "input_to": 0,
-             "cycles_with_3plus_served": 0, "cycles_leaving_backlog": 0, "max_users_100": 0, "closes": 0, "logons": 0}
+        h = {"cycles": 0, "aborted_cycles": 0, "buffered_cmds": 0, "efun_cmds": 0, "kicks": 0, "drops": 0, "getchar": 0, "input_to": 0,
+             "cycles_with_3plus_served": 0, "cycles_leaving_backlog": 0, "max_users_100": 0, "closes": 0, "logons": 0,
+             "connect_and_disconnect_in_one_io": 0, "exec_moves": 0}
         for c in cases:
             served = 0
+            closed_since_end = False
             for l in impl.get(c.id, []):
                 t = l.split()
                 if not t:
@@ -471,11 +664,19 @@ class C12(Prop):
                     h["getchar"] += 1
                 elif t[0] == "it" and t[-1] == "1":
                     h["input_to"] += 1
+                elif t[0] == "exec" and t[-1] == "1":
+                    h["exec_moves"] += 1
+                elif t[0] == "abort":
+                    h["aborted_cycles"] += 1
                 elif t[0] == "close":
                     h["closes"] += 1
+                    closed_since_end = True
                 elif t[0] == "logon":
                     h["logons"] += 1
+                    if closed_since_end:
+                        h["connect_and_disconnect_in_one_io"] += 1
                 elif t[0] == "end":
+                    closed_since_end = False
                     if served >= 3:
                         h["cycles_with_3plus_served"] += 1
                     if any(x.split(":")[-1].isdigit() and int(x.split(":")[-1]) & 128 for x in t[3:]):
